@@ -60,6 +60,22 @@ let run_case (ops : string list) : string list =
       let maxs = ref 0 in
       "ok" :: List.map (fun line ->
           let t = Array.of_list (String.split_on_char ' ' line) in
+          if t.(0) = "race" then begin
+            (* n fresh sessions send the same cSet: in the model one after the other (the core handles one request at a time) *)
+            let n = int_of_string t.(1) in
+            let res = List.init n (fun i ->
+                let s = n_of_int (100000 + i) in
+                let (w1, _) = sstep !w (SOpen s) in
+                let m = MCSet (n_of_int 1, str_of_tok t.(2), json_of_tok t.(3), n_of_int (int_of_string t.(4))) in
+                let (w2, out) = sstep w1 (SMsg (s, m)) in
+                let (w3, _) = sstep w2 (SClose s) in
+                w := w3;
+                (match List.filter (fun (s', _) -> s' = s) out with
+                 | (_, SAck _) :: _ -> "ack"
+                 | (_, SErr (_, code, _)) :: _ -> "err" ^ dec_of_n code
+                 | _ -> "noanswer")) in
+            "race:" ^ String.concat "," (List.sort compare res)
+          end else
           let sn = int_of_string t.(1) in
           if sn > !maxs then maxs := sn;
           let was_open = List.init (!maxs + 1) (fun n -> sess_open !w (n_of_int n)) in
